@@ -359,6 +359,7 @@ func (s *r2State) interruptPath(d *core.FuncDecl, ctxP *types.Var, chans []*type
 	recvErr := map[*types.Var]bool{} // local holding an error received from an error channel
 	guarded := map[*types.Var]bool{} // … and tested != nil on this path
 	cancelEv := false
+	ctxArm := false // the select arm taken last was the ctx.Done() arm
 	for i, ev := range p.Events {
 		if ev.Frame.Parent != nil {
 			continue // own body only
@@ -366,6 +367,7 @@ func (s *r2State) interruptPath(d *core.FuncDecl, ctxP *types.Var, chans []*type
 		switch ev.Kind {
 		case core.KLoop:
 			ctxEv, closedEv, cancelEv = false, false, false
+			ctxArm = false
 		case core.KAssign:
 			// derived contexts: x, cancel := context.WithCancel(ctx)
 			if ev.Rhs != nil {
@@ -439,6 +441,11 @@ func (s *r2State) interruptPath(d *core.FuncDecl, ctxP *types.Var, chans []*type
 		case core.KRecv:
 			if isCtxDone(ev.Chan, ev.Frame, ctxs) {
 				ctxEv = true
+				if ev.InSelect {
+					ctxArm = true
+				}
+			} else if ev.InSelect {
+				ctxArm = false
 			}
 			if chv := identVar(ev.Chan, ev.Frame); chv != nil {
 				for _, cp := range chans {
@@ -473,6 +480,18 @@ func (s *r2State) interruptPath(d *core.FuncDecl, ctxP *types.Var, chans []*type
 				s.blockingSite(name, ev, nil, ctxP, ctxs, chans, p)
 			}
 		case core.KReturn:
+			if ctxArm && len(ev.Results) > 0 {
+				last := ev.Results[len(ev.Results)-1]
+				var rt types.Type
+				if sig, ok := d.Obj.Type().(*types.Signature); ok && sig.Results().Len() == len(ev.Results) {
+					rt = sig.Results().At(len(ev.Results) - 1).Type()
+				}
+				if rt != nil && isErrorType(rt) {
+					s.note("R17", name+"/ctx-arm-returns-error", ev.Pos, isNilExpr(last, ev.Frame),
+						"a return from the ctx.Done() arm carries an error",
+						"the function returns a nil error from its ctx.Done() arm: a cancelled wait is reported as success", p)
+				}
+			}
 			for _, r := range ev.Results {
 				isCanceled := false
 				if sel, ok := unparen(r).(*ast.SelectorExpr); ok && sel.Sel.Name == "Canceled" {
